@@ -76,11 +76,11 @@ def driverRun (xc : XcmpCore) (action : Action) (input : String) (inputIsFilenam
     if inputIsFilename then fs.read input
     else some (input.toUTF8.toList.map (fun b => BitVec.ofNat 8 b.toNat))
   match src with
-  | none => .exn
+  | none => .exn .none
   | some s =>
     match xc.compile action mem s with
     | .error l => .error l
-    | .exn => .exn
+    | .exn => .exn .none
     | .ok img =>
       if action = .binary then
         .ret 0 (emitBin fs outputBinaryFilename img) false (stdoutOfAction action mem)   -- PINNED unchecked open
@@ -166,7 +166,7 @@ def xrunBody (xc : XcmpCore) (sim : SimCore) (junk : Bytes) (o : RunOpts) (fs : 
       | r => r                                             -- run() threw: catch arm, `return 1`
     | .ret _ fs' err out => ⟨0, fs', err, out⟩             -- PINNED compile failed: falls to `return 0`
     | .error _ => ⟨1, fs, true, .none⟩
-    | .exn => ⟨1, fs, true, .none⟩
+    | .exn out => ⟨1, fs, true, out⟩
 
 def xrunMain (xc : XcmpCore) (sim : SimCore) (junk : Bytes) (args : List String) (fs : Fs) : Result :=
   match xrunLoop args {} with
